@@ -34,6 +34,7 @@ package util
 
 import (
 	"context"
+	"database/sql"
 	"database/sql/driver"
 	"errors"
 	"fmt"
@@ -296,6 +297,11 @@ func (rs *ScanRows) Scan(dest ...interface{}) error {
 	}
 	for i, sv := range rs.lastcols {
 		if sv == nil {
+			// NULL: a RawBytes destination must not keep its (empty) initial value,
+			// NULL and the empty value are different things
+			if d, ok := dest[i].(*sql.RawBytes); ok && d != nil {
+				*d = nil
+			}
 			continue
 		}
 		// the type of dest may be NullString, NullInt64, int64, etc, we should call its Scan()
